@@ -13,7 +13,15 @@ import (
 
 	"go.pennock.tech/tabular"
 	"go.pennock.tech/tabular/properties/align"
+	"go.pennock.tech/tabular/texttable/decoration"
 )
+
+// searchDistinct: every glyph a different letter, so that a swapped corner or crossing shows
+var searchDistinct = decoration.Decoration{
+	HOuter: "a", HRule: "b", VHeader: "c", VBodyBorder: "d", VBodyInner: "e",
+	TopLeft: "f", TopRight: "g", BottomLeft: "h", BottomRight: "i", LeftBodyRule: "j", RightBodyRule: "k",
+	HTopDown: "l", BTopDown: "m", BBottomUp: "n", HBCross: "o", HBLeft: "p", HBRight: "q", CrossPiece: "r",
+}
 
 func searchLines(s string) []string {
 	if s == "" {
@@ -52,104 +60,125 @@ func TestSearchTextTable(t *testing.T) {
 		{{"a"}}, {{"a", "bb"}, {"ccc"}}, {{"l1\nl22", "x"}, {"", "yy\n"}}, {{"a", "b", "c"}, {}, {"dddd"}},
 	}
 	aligns := []interface{}{nil, align.Left, align.Right, align.Center}
-	for gi, g := range grids {
-		for _, hdr := range [][]string{nil, {"H"}, {"H1", "H2\nh"}} {
-			for _, sepAt := range []int{-1, 1} {
-				for _, a0 := range aligns {
-					for _, a1 := range aligns {
-						tb := New()
-						tb.SetDecorationNamed("ascii-simple")
-						var all [][]string
-						if hdr != nil {
-							items := make([]interface{}, len(hdr))
-							for i := range hdr {
-								items[i] = hdr[i]
-							}
-							tb.AddHeaders(items...)
-						}
-						for i, r := range g {
-							if i == sepAt {
-								tb.AddSeparator()
-							}
-							row := tabular.NewRowWithCapacity(len(r))
-							for _, c := range r {
-								row.Add(tabular.NewCell(c))
-							}
-							tb.AddRow(row)
-						}
-						ncols := tb.NColumns()
-						if ncols == 0 {
-							continue
-						}
-						if a0 != nil {
-							tb.Column(0).SetProperty(align.PropertyType, a0)
-						}
-						if a1 != nil {
-							tb.Column(1).SetProperty(align.PropertyType, a1)
-						}
-						eff := make([]interface{}, ncols)
-						for c := range eff {
-							eff[c] = a0
-						}
-						if a1 != nil {
-							eff[0] = a1
-						}
-						all = append(all, hdr)
-						all = append(all, g...)
-						w := make([]int, ncols)
-						for _, r := range all {
-							for c, s := range r {
-								for _, l := range searchLines(s) {
-									if c < ncols && len(l) > w[c] {
-										w[c] = len(l)
-									}
+	for _, distinct := range []bool{false, true} {
+		for gi, g := range grids {
+			for _, hdr := range [][]string{nil, {"H"}, {"H1", "H2\nh"}} {
+				for _, sepAt := range []int{-1, 1} {
+					for _, a0 := range aligns {
+						for _, a1 := range aligns {
+							tb := New()
+							tb.SetDecorationNamed("ascii-simple")
+							d := decoration.ASCIIBoxSimple()
+							if distinct {
+								if a0 != nil || a1 != nil {
+									continue
 								}
+								d = searchDistinct
+								tb.SetDecoration(d)
 							}
-						}
-						rule := func() string {
-							s := "+"
-							for c := 0; c < ncols; c++ {
-								s += strings.Repeat("-", w[c]+2) + "+"
-							}
-							return s + "\n"
-						}
-						content := func(r []string) string {
-							n := 1
-							for c, s := range r {
-								if c < ncols && len(searchLines(s)) > n {
-									n = len(searchLines(s))
+							var all [][]string
+							if hdr != nil {
+								items := make([]interface{}, len(hdr))
+								for i := range hdr {
+									items[i] = hdr[i]
 								}
+								tb.AddHeaders(items...)
 							}
-							out := ""
-							for l := 0; l < n; l++ {
-								out += "|"
-								for c := 0; c < ncols; c++ {
-									cell := ""
-									if c < len(r) {
-										if ls := searchLines(r[c]); l < len(ls) {
-											cell = ls[l]
+							for i, r := range g {
+								if i == sepAt {
+									tb.AddSeparator()
+								}
+								row := tabular.NewRowWithCapacity(len(r))
+								for _, c := range r {
+									row.Add(tabular.NewCell(c))
+								}
+								tb.AddRow(row)
+							}
+							ncols := tb.NColumns()
+							if ncols == 0 {
+								continue
+							}
+							if a0 != nil {
+								tb.Column(0).SetProperty(align.PropertyType, a0)
+							}
+							if a1 != nil {
+								tb.Column(1).SetProperty(align.PropertyType, a1)
+							}
+							eff := make([]interface{}, ncols)
+							for c := range eff {
+								eff[c] = a0
+							}
+							if a1 != nil {
+								eff[0] = a1
+							}
+							all = append(all, hdr)
+							all = append(all, g...)
+							w := make([]int, ncols)
+							for _, r := range all {
+								for c, s := range r {
+									for _, l := range searchLines(s) {
+										if c < ncols && len(l) > w[c] {
+											w[c] = len(l)
 										}
 									}
-									out += " " + searchPad(cell, w[c], eff[c]) + " |"
 								}
-								out += "\n"
 							}
-							return out
-						}
-						want := rule()
-						if hdr != nil {
-							want += content(hdr) + rule()
-						}
-						for i, r := range g {
-							if i == sepAt {
-								want += rule()
+							ruleOf := func(left, horiz, cross, right string) string {
+								s := left
+								for c := 0; c < ncols; c++ {
+									s += strings.Repeat(horiz, w[c]+2)
+									if c < ncols-1 {
+										s += cross
+									}
+								}
+								return s + right + "\n"
 							}
-							want += content(r)
-						}
-						want += rule()
-						got, err := tb.Render()
-						if err != nil || got != want {
-							fail("failing table: grid %d %q header %q separator at %d, column-0 alignment %v, column-1 alignment %v:\nRender =\n%s(err %v)\nthe layout of C03/C04 is\n%s", gi, g, hdr, sepAt, a0, a1, got, err, want)
+							content := func(r []string, border, inner string) string {
+								n := 1
+								for c, s := range r {
+									if c < ncols && len(searchLines(s)) > n {
+										n = len(searchLines(s))
+									}
+								}
+								out := ""
+								for l := 0; l < n; l++ {
+									out += border
+									for c := 0; c < ncols; c++ {
+										cell := ""
+										if c < len(r) {
+											if ls := searchLines(r[c]); l < len(ls) {
+												cell = ls[l]
+											}
+										}
+										out += " " + searchPad(cell, w[c], eff[c]) + " "
+										if c < ncols-1 {
+											out += inner
+										} else {
+											out += border
+										}
+									}
+									out += "\n"
+								}
+								return out
+							}
+							want := ""
+							if hdr != nil {
+								want += ruleOf(d.TopLeft, d.HOuter, d.HTopDown, d.TopRight)
+								want += content(hdr, d.VHeader, d.VHeader) + ruleOf(d.HBLeft, d.HOuter, d.HBCross, d.HBRight)
+							} else {
+								want += ruleOf(d.TopLeft, d.HOuter, d.BTopDown, d.TopRight)
+							}
+							for i, r := range g {
+								if i == sepAt {
+									want += ruleOf(d.LeftBodyRule, d.HRule, d.CrossPiece, d.RightBodyRule)
+								}
+								want += content(r, d.VBodyBorder, d.VBodyInner)
+							}
+							want += ruleOf(d.BottomLeft, d.HOuter, d.BBottomUp, d.BottomRight)
+							got, err := tb.Render()
+							if err != nil || got != want {
+								fail("failing table (distinct glyphs: %v): grid %d %q header %q separator at %d, column-0 alignment %v, column-1 alignment %v:\nRender =\n%s(err %v)\nthe layout of C03/C04 is\n%s", distinct, gi, g, hdr, sepAt, a0, a1, got, err, want)
+							}
 						}
 					}
 				}
